@@ -475,7 +475,10 @@ class SigSuite(Suite):
         return st
 
     def oracle(self, case, out):
-        return run_prop(case, out).msgs
+        msgs = run_prop(case, out).msgs
+        if msgs:
+            self.oracle_failed = True
+        return msgs
 
 
 class RaceSuite(Suite):
@@ -719,10 +722,14 @@ class BatonSuite(Suite):
         self.lin.pop(cid, None)
         for l in out:
             if l.startswith("crash") or l.startswith("assert-failed") or l.startswith("deadlock"):
+                self.oracle_failed = True
                 return ["crash: %s under the schedule (see the trace)" % l]
         scase, sout = linearise(case, out)
         self.lin[cid] = (case, scase, sout)
-        return run_prop(scase, sout).msgs
+        msgs = run_prop(scase, sout).msgs
+        if msgs:
+            self.oracle_failed = True
+        return msgs
 
     def stats(self, cases, outs):
         """input distribution + the accept-mode model comparison of every linearised history"""
@@ -783,23 +790,31 @@ class C15(Spec):
     pid = "C15"
     lean_modules = ["CoclsModel.Props.C15"]
     design_ref = "DESIGN.md §5 C15"
-    trusted_base = ["hand-written model lean/CoclsModel/Signal.lean tied to signal.h/awaiter.h by differential correspondence "
-                    "(harness/h_signal.cpp vs lean/Drivers/C15.lean) on generated histories",
-                    "C++20 coroutine machinery, std::shared_ptr/weak_ptr, suspend_point flushing (C05/C06) taken as specified"]
+    trusted_base = ["hand-written model lean/CoclsModel/Signal.lean tied to signal.h/awaiter.h by differential correspondence: "
+                    "harness/h_signal.cpp vs lean/Drivers/C15.lean on generated sequential histories (every line diffed), and the "
+                    "linearised traces of harness/h_signal_t.cpp (real threads under the baton shim) run through the same driver",
+                    "linearisation rule of the baton traces (checks/c15.py:linearise): first successful CAS = subscription, exchange = "
+                    "collector call / destructor",
+                    "C++20 coroutine machinery, std::shared_ptr/weak_ptr, suspend_point flushing and coro_queue (C05/C06) taken as specified"]
     technique = "Lean 4 invariant proof (induction over all operation lists) + differential correspondence with the real headers"
     level_text = ("Lean 4 theorems over an executable model of signal<T>'s shared state (awaiter chain, current-value pointer, owned "
                   "copy, strong-reference count) with scripted coroutine listeners and connected callbacks: broadcast (every waiting "
                   "listener, exactly once, that value), no-miss for re-awaiting listeners, callback call/release accounting, disconnect "
                   "wakes all, awaiting a disconnected emitter fails at once - for every operation list under the documented Flushed "
-                  "contract, plus the negative lemma without it; the model is tied to signal.h by running both on generated histories "
-                  "and diffing every line; property oracles run on the implementation trace")
+                  "contract, the counting and callback theorems for every operation list without it, plus the negative lemma; the closed "
+                  "forms used in the proofs are proved equal to the awaiter-by-awaiter loops the driver executes; the model is tied to "
+                  "signal.h by running both on generated histories (sequential: every line diffed; threads under a deterministic baton "
+                  "scheduler: linearised trace through the model) and property oracles run on every implementation trace")
     level_note = ("trusted: Lean kernel (axioms propext/Classical.choice/Quot.sound at most), the hand-written model, the differential "
-                  "harness (sampling), the C++ coroutine machinery, shared_ptr/weak_ptr and suspend_point/coro_queue (C05/C06). "
-                  "Subscription from other threads is exercised on the real code (threads subscribing concurrently, and racing with "
-                  "the collector in the stress suite); the lock-free chain itself is the subject of C01/C03.")
+                  "harnesses (sampling + exhaustive small schedules in the thorough tier), the C++ coroutine machinery, "
+                  "shared_ptr/weak_ptr and suspend_point/coro_queue (C05/C06). One model step = one public call: a subscription is "
+                  "its publishing CAS, a collector call its exchange; other threads' subscriptions commute with the walk that follows "
+                  "the exchange (they only push onto the new chain), which the baton suite exercises at CAS/exchange granularity and "
+                  "the race suite with free-running threads. Memory-order questions of the chain belong to C03.")
     assumptions = ["Flushed: the suspend point returned by a collector call is discarded in a normal thread or co_awaited before "
                    "the next collector call and before the last handle is destroyed (documented contract, signal.h:86-93,131-133,156-160)",
-                   "collector calls are serialised by the caller (documented: collector is not MT-safe)",
+                   "collector calls are serialised by the caller (documented: collector is not MT-safe), and the handle used for a call "
+                   "outlives the flush of the suspend point it returned",
                    "a listener coroutine is not destroyed while it is subscribed (the API has no unsubscribe)",
                    "callbacks do not throw and do not call the collector re-entrantly"]
 
@@ -811,6 +826,8 @@ class C15(Spec):
 
     def extra_checks(self, ctx):
         """a linearised baton history on which model and implementation differ (no oracle failed on it)"""
+        if any(getattr(s, "oracle_failed", False) for s in self._suites):
+            return          # a failing input exists and is reported by the oracle
         for s in self._suites:
             diffs = getattr(s, "model_diffs", None)
             if diffs:
